@@ -766,6 +766,20 @@ theorem stepA_inv {w w' : World} {act : Act} (H : WInv w) (hs : stepA w act = .o
             (by show dataOf (w.a.parked ++ [m]) ++ dataOf rest = dataOf w.a.parked ++ dataOf w.b.out
                 rw [hout]; cases m <;> simp)
             (fun _ h => h) Hba
+  | unpark =>
+    simp only [stepA] at hs
+    split at hs
+    · cases hs
+    · next hc =>
+      have hc : w.a.conn = false := by simpa using hc
+      split at hs
+      · cases hs
+      · next m rest hp =>
+        simp only [Except.ok.injEq] at hs
+        subst hs
+        obtain ⟨h1, h2⟩ := pair_unpark Hab Hba m rest hp
+        obtain ⟨g1, _, _⟩ := gotRecord_frame { w.a with parked := rest } m
+        exact ⟨h1, h2, (by intro h; rw [g1] at h; simp only at h; rw [hc] at h; cases h), Pb⟩
   | listen n =>
     simp only [stepA] at hs
     split at hs
@@ -875,6 +889,16 @@ theorem stepA_built {w w' : World} {act : Act} (hs : stepA w act = .ok w') :
       · cases hs
       · simp only [Except.ok.injEq] at hs
         subst hs; simp [actWrites]
+  | unpark =>
+    simp only [stepA] at hs
+    split at hs
+    · cases hs
+    · split at hs
+      · cases hs
+      · next m rest hp =>
+        simp only [Except.ok.injEq] at hs
+        subst hs
+        simp [(gotRecord_frame { w.a with parked := rest } m).2.2, actWrites]
   | listen n =>
     simp only [stepA] at hs
     split at hs
@@ -1032,6 +1056,11 @@ theorem enabledA_ok {w : World} {act : Act} (H : WInv w) (he : enabledA w act = 
     cases hout : w.b.out with
     | nil => simp [hout] at he
     | cons m rest => simp [stepA, hout, he.1]
+  | unpark =>
+    simp only [enabledA, Bool.and_eq_true, Bool.not_eq_eq_eq_not, Bool.not_true, List.isEmpty_iff] at he
+    cases hp : w.a.parked with
+    | nil => simp [hp] at he
+    | cons m rest => simp [stepA, hp, he.1]
   | listen n =>
     have hn : ¬ (n ∈ w.a.l4.factories) := by simpa [enabledA] using he
     simp [stepA, hn]
